@@ -4,7 +4,7 @@
    go-zero changes the definitions below and these proofs are re-checked against it. *)
 From Coq Require Import List ZArith Bool Lia.
 From GZgen Require Import C18Consts.
-From GZ Require Import C18.Model C18.Header C18.ProofsHeader.
+From GZ Require Import C18.Model C18.Header C18.ProofsHeader C18.ProofsCrypt.
 Import ListNotations.
 Open Scope Z_scope.
 
@@ -61,6 +61,37 @@ Qed.
 (* defaults used by the executor / generator *)
 Lemma defaults : max_bytes = 2 ^ 20 /\ signature_expiry_default_s = 3600.
 Proof. split; reflexivity. Qed.
+
+(* Bodies of unknown length (ContentLength = -1).  The flag is read off the source on every run
+   (tools/c18consts.py: the pass-through test of LimitCryptionHandler and the hand-over test of
+   LimitContentSecurityHandler, which must agree).  Whatever it says today, the corresponding
+   statement is proved for today's tree: without the repair the body reaches the handler as it
+   came (known finding cryption-skips-unknown-length-body); with it, decrypted like any other. *)
+Definition unknown_length_statement (fixed : bool) : Prop :=
+  if fixed then
+    forall aes_ok (E D : Z -> list Z -> list Z) b64enc b64dec,
+    (forall key b, length b = bsn -> D key (E key b) = b) ->
+    (forall key b, length b = bsn -> length (E key b) = bsn) ->
+    (forall x, b64dec (b64enc x) = Some x) ->
+    (forall x, x <> [] -> b64enc x <> []) ->
+    forall limit key p c resp,
+    aes_ok key = true -> ecb_encrypt aes_ok E key p = Ok c ->
+    (limit <= 0 \/ len (b64enc c) <= limit) ->
+    crypt_handler fixed aes_ok E D b64enc b64dec limit key (-1) (b64enc c) resp
+      = mkHout true 200 p (flush aes_ok E b64enc key resp) false
+  else
+    forall aes_ok E D b64enc b64dec limit key wire resp,
+    o_seen (crypt_handler fixed aes_ok E D b64enc b64dec limit key (-1) wire resp) = wire.
+
+Theorem unknown_length_today : unknown_length_statement unknown_length_fix.
+Proof.
+  cbv [unknown_length_statement unknown_length_fix].
+  first [ intros aes_ok E D b64enc b64dec limit key wire resp;
+          apply unknown_length_passthrough; [reflexivity|lia]
+        | intros aes_ok E D b64enc b64dec DE Elen B1 B2 limit key p c resp K Ec Hl;
+          apply (body_roundtrip_unknown_length aes_ok E D b64enc b64dec DE Elen B1 B2 true limit key p c resp eq_refl K Ec Hl) ].
+Qed.
+Print Assumptions unknown_length_today.
 
 (* httpx.ParseHeader, as applied to X-Content-Security.  The model is a total function
    (it never fails or diverges, whatever the bytes); on every input:
